@@ -496,11 +496,63 @@ def run(ctx):
                 jobs.append((method, "pruned", k2, shard))
     for res in lattice.pmap(_atom_shard, jobs, w):
         ctx.merge(res)
+    for res in lattice.pmap(_cross_method_shard, list(itertools.permutations(METHODS, 2)), w):
+        ctx.merge(res)
     ctx.cov["methods"] = list(METHODS)
     ctx.cov["supported_grids"] = {m: len(listing(m)) for m in METHODS}
 
 
+def _cross_method_shard(arg):
+    """Two-step histories in ONE process: resolve the same requests for method m1, then for m2 (converter, static lookup,
+    constructor, atomic grid by sizes).  The second answer must be m2's, whatever was asked of m1 before (added after
+    seeded change C19-E: a memo of size -> degree that forgot the method)."""
+    m1, m2 = arg
+    from grid.angular import AngularGrid
+    from grid.atomgrid import AtomGrid
+
+    res = WorkerResult(section="cross-method")
+    p1, p2 = listing(m1), listing(m2)
+    sizes = sorted({p[1] for p in p1[:12]} | {p[1] for p in p2[:12]} | {p[1] + 1 for p in p2[:6]})
+    top = min(max(p[1] for p in p1), max(p[1] for p in p2))
+    sizes = [q for q in sizes if q <= top]
+    degs = sorted({p[0] for p in p1[:8]} | {p[0] for p in p2[:8]})
+    degs = [d for d in degs if d <= min(p1[-1][0], p2[-1][0])]
+    case = {"route": "cross-method", "first": m1, "then": m2}
+    with warnings.catch_warnings():
+        warnings.simplefilter("ignore")
+        for q in sizes:
+            AngularGrid.convert_angular_sizes_to_degrees([q], m1)
+            AngularGrid._get_degree_and_size(degree=None, size=q, method=m1)
+        AtomGrid(_rgrid(len(sizes)), sizes=list(sizes), method=m1)
+        AtomGrid(_rgrid(len(degs)), degrees=list(degs), method=m1)
+        res.count(3 * len(sizes) + len(degs))
+        got = [int(v) for v in AngularGrid.convert_angular_sizes_to_degrees(list(sizes), m2)]
+        want = [oracle_by_size(p2, q)[0] for q in sizes]
+        res.nontrivial()
+        if got != want:
+            res.violation(f"cross-method:convert:{m2}-after-{m1}", f"convert_angular_sizes_to_degrees({sizes}, {m2!r}) after the same sizes "
+                          f"were converted for {m1!r}: {got}, expected {want}", case)
+        g = AtomGrid(_rgrid(len(sizes)), sizes=list(sizes), method=m2)
+        gs = [int(b - a) for a, b in zip(g.indices[:-1], g.indices[1:])]
+        ws = [oracle_by_size(p2, q)[1] for q in sizes]
+        if gs != ws or [int(d) for d in g.degrees] != want:
+            res.violation(f"cross-method:atom-sizes:{m2}-after-{m1}", f"AtomGrid(sizes={sizes}, {m2!r}) after the same request for {m1!r}: "
+                          f"shell sizes {gs}, expected {ws}", case)
+        g = AtomGrid(_rgrid(len(degs)), degrees=list(degs), method=m2)
+        wd = [oracle_by_degree(p2, d)[0] for d in degs]
+        if [int(d) for d in g.degrees] != wd:
+            res.violation(f"cross-method:atom-degrees:{m2}-after-{m1}", f"AtomGrid(degrees={degs}, {m2!r}) after {m1!r}: {list(map(int, g.degrees))}, "
+                          f"expected {wd}", case)
+        for q in sizes[:6]:
+            a = AngularGrid(size=q, method=m2)
+            if (int(a.degree), int(a.size)) != tuple(oracle_by_size(p2, q)):
+                res.violation(f"cross-method:ctor:{m2}-after-{m1}", f"AngularGrid(size={q}, {m2!r}) after {m1!r}: ({a.degree}, {a.size})", case)
+    return res.as_dict()
+
+
 def replay(ctx, case):
+    if case.get("route") == "cross-method":
+        return ctx.merge(_cross_method_shard((case["first"], case["then"])))
     res = WorkerResult()
     route = case["route"]
     method = case.get("method")
